@@ -19,6 +19,19 @@ from vlib.wk.sched import Coop, HarnessTimeout
 CASE = [0]
 
 
+class _Hooked:
+    """a stack item whose unwrap hook runs a callback in the middle of an extraction"""
+
+    def __init__(self, fn):
+        self.fn = fn
+
+
+@stackscope.unwrap_stackitem.register(_Hooked)
+def _unwrap_hooked(it):
+    it.fn()
+    return None
+
+
 def make_module(name, kind, log, on_import=None):
     m = types.ModuleType(name)
     if kind in ("mod", "both", "raise", "importer"):
@@ -53,7 +66,7 @@ def run_history(req):
     obs = []
     known = []
     stats = {"extracts": 0, "removes": 0, "adds": 0, "f4_hits": 0, "raising_glue_runs": 0, "glue_runs": 0,
-             "inserted_by_glue": 0, "extract_after_insertion_by_glue": 0}
+             "inserted_by_glue": 0, "extract_after_insertion_by_glue": 0, "nested_extractions_after_insertion": 0}
     with warnings.catch_warnings():
         warnings.simplefilter("ignore")
         extract(1)   # make sure the cache reflects the current sys.modules
@@ -119,6 +132,49 @@ def run_history(req):
                 sys.modules[name] = m
                 present[slot] = (name, m, kind)
                 stats["adds"] += 1
+            elif t == "nested":
+                # A module appears in the MIDDLE of an extraction (a hook imports it) and the hook then starts a nested
+                # extraction with extract_child(): that one starts after the module appeared, so the module's glue has
+                # run by the time it returns.  Made right after a completed extraction, so nothing else is pending.
+                slot = op[1]
+                if slot in present or not stats["extracts"] or ops[ops.index(op) - 1][0] != "extract":
+                    continue
+                gen[slot] += 1
+                name = "vmod_%d_%d_%d" % (CASE[0], slot, gen[slot])
+                used.append(name)
+                removed.pop(slot, None)
+                box = {}
+                before = len(log)
+                del born[:]
+
+                def hook(name=name, slot=slot, box=box):
+                    m = new_module(name, "mod")
+                    sys.modules[name] = m
+                    present[slot] = (name, m, "mod")
+                    box["len"] = len(sys.modules)
+                    stackscope.extract_child(1, for_task=False)
+                    box["ran"] = (name, "module", id(m)) in log
+                    box["key"] = (name, "module", id(m))
+                with warnings.catch_warnings():
+                    warnings.simplefilter("ignore")
+                    try:
+                        extract(_Hooked(hook))
+                    except BaseException as ex:
+                        obs.append({"kind": "extract_raised", "exc": repr(ex)})
+                        break
+                stats["nested_extractions_after_insertion"] += 1
+                if "ran" not in box:
+                    obs.append({"kind": "harness_hook_did_not_run"})
+                elif not box["ran"]:
+                    obs.append({"kind": "glue_not_run_by_nested_extraction_started_after_the_module_appeared",
+                                "module": name, "ran_later": box["key"] in log})
+                # whatever else was still pending (an F4-skipped module, say) may have been installed on the way
+                for (n, k, i) in log[before:]:
+                    if k == "module":
+                        unrun_mod.discard(i)
+                    bi_pending.discard(n)
+                if box.get("key") in log:
+                    last_scan_len = box["len"]
             elif t == "extract":
                 expect = []
                 for slot, (name, m, kind) in present.items():
